@@ -85,10 +85,11 @@ theorem spec_enter_exit (a : AState) (t : Thread) (r : Id) :
     (astep (astep a t (.enter r)).1 t (.exit r)).1.frames t = a.frames t := by
   simp [astep]
 
-/-- a derived runtime holds the handlers of the runtime it was derived from plus its overrides -/
+/-- a derived runtime holds its overrides, else the handlers of the runtime it was derived from,
+    else (`Runtime.__init__`) the defaults registered when it was derived -/
 theorem derived_handlers (s : State) (t : Thread) (r : Id) (hs : Table) (ty : Ty) :
     ((step s t (.derive r hs)).1.objs (t, s.next t)).handlers.lookup ty =
-      (hs.lookup ty).or ((s.objs r).handlers.lookup ty) := by
+      (hs.lookup ty).or (((s.objs r).handlers.lookup ty).or (s.defaults.lookup ty)) := by
   simp [step, alloc, List.lookup_append]
 
 /-! ## Deriving is pure -/
